@@ -313,7 +313,7 @@ def proc_functional(
                     raise error.UnsuspectedHangeulOutOfRangeError(
                         metadata, f"길이 {len(seq)}의 객체의 {idx}번째 요소를 요청했습니다."
                     ) from None
-            value = seq[idx:][:1]
+            value = seq[idx:][:1] if -len(seq) <= idx < len(seq) else seq[:0]
             if not value:
                 raise error.UnsuspectedHangeulOutOfRangeError(
                     metadata, f"길이 {len(seq)}의 객체의 {idx}번째 요소를 요청했습니다."
